@@ -214,7 +214,7 @@ class Algebra:
             return True
         if t[0] == 'call' and t[1] in self.identity_calls:
             return True
-        if t[0] == 'meth' and t[1] in ('sum', 'mean') | IDENTITY_METHODS:
+        if t[0] == 'meth' and (t[1] in ('sum', 'mean') or t[1] in IDENTITY_METHODS):
             return True
         return False
 
